@@ -18,7 +18,19 @@
 //   handns T n vec i..        DynamicMatrixHelp::eigenValuesNonSym through a recording fake ?geev
 //   handnsf T n i..           FMatrixHelp::eigenValuesNonSym through a recording fake ?geev
 //   nsd T n vec k h..         DynamicMatrixHelp::eigenValuesNonSym on the real n x n matrix (full, row-major hex floats)*2^k
-//   nsf T n k h..             FMatrixHelp::eigenValuesNonSym
+//   nsf  T n k h..             FMatrixHelp::eigenValuesNonSym
+//   nsq  T C : seg;seg;..     history of DynamicMatrixHelp::eigenValuesNonSym calls that reuse the SAME eigenvalue vector and
+//                             eigenvector list (C in {c,z}: DynamicVector<std::complex<T>> / <std::complex<double>>), real
+//                             LAPACK; seg = `ev n vec k h..` (one call, as nsd) | `pre a [l0,l1,..]` (the caller sets the
+//                             eigenvalue vector to a entries and the list to vectors of these lengths, filled with junk).
+//                             impl = shape of both containers after every segment; oracle = sizes + spectrum +
+//                             A v = lambda v after every call
+//   handnsq T C : seg;seg;..  the same through the recording fake ?geev; seg = `fk n vec i..` | `pre a [l0,..]`;
+//                             impl = the complete content of both containers after every segment
+//
+// Output arguments: every routine is entered with output arguments that already hold something (NaN / junk for the
+// fixed-size ones, whatever the history left behind for the dynamic ones); the sym/ev2x/ev3x cases run each routine
+// twice with differently pre-filled outputs and require identical answers.
 //
 // The oracle never uses the Lean model nor the code under test: cyclic Jacobi in __float128 for the symmetric
 // reference spectrum, residuals/orthogonality/power sums in __float128, exact Vieta test for ev2x.
@@ -31,6 +43,7 @@
 #include <complex>
 #include <cstdio>
 #include <limits>
+#include <set>
 
 #include <dune/common/dynmatrix.hh>
 #include <dune/common/dynmatrixev.hh>
@@ -360,16 +373,29 @@ static std::string quantVec(const std::vector<Q>& v) {
   for (auto x : q)
     if (x != 0) { flip = x < 0 ? -1 : 1; break; }
   std::string s = "[";
-  for (size_t i = 0; i < v.size(); ++i) s += std::string(i ? "," : "") + quantOne((double)v[i], q[i] * flip);
+  for (size_t i = 0; i < v.size(); ++i)
+    s += std::string(i ? "," : "") + quantOne((double)v[i], (std::isfinite((double)v[i]) && q[i] != INT64_MIN) ? q[i] * flip : q[i]);
   return s + "]";
 }
 
+// The output arguments belong to the caller and may hold anything when the routine is entered (results of an earlier
+// call, uninitialised storage): they are pre-filled, variant 0 with quiet NaNs (any use of the previous content
+// propagates into the result and is caught by the finiteness checks), variant 1 with finite junk.
+template <class T> T junkScalar(int variant, int idx) {
+  return variant == 0 ? std::numeric_limits<T>::quiet_NaN() : (T)(-7.25e3 - 3 * idx);
+}
+
 template <class T, int n>
-SymOut callSym(bool lap, const Dune::FieldMatrix<T, n, n>& A) {
+SymOut callSymOnce(bool lap, const Dune::FieldMatrix<T, n, n>& A, int variant) {
   SymOut o;
   try {
     Dune::FieldVector<T, n> w1, w2;
     Dune::FieldMatrix<T, n, n> V;
+    for (int i = 0; i < n; ++i) {
+      w1[i] = junkScalar<T>(variant, i);
+      w2[i] = junkScalar<T>(variant, 10 + i);
+      for (int j = 0; j < n; ++j) V[i][j] = junkScalar<T>(variant, 20 + n * i + j);
+    }
     if (lap) {
       Dune::FMatrixHelp::eigenValuesLapack(A, w1);
       Dune::FMatrixHelp::eigenValuesVectorsLapack(A, w2, V);
@@ -387,6 +413,30 @@ SymOut callSym(bool lap, const Dune::FieldMatrix<T, n, n>& A) {
   } catch (Dune::MathError&) { o.err = "ERR:Math";
   } catch (Dune::InvalidStateException&) { o.err = "ERR:InvalidState";
   } catch (Dune::Exception&) { o.err = "ERR:Other"; }
+  return o;
+}
+
+static bool sameQ(Q a, Q b) { return a == b || (isnanq(a) && isnanq(b)); }
+static bool sameOut(const SymOut& a, const SymOut& b) {
+  if (a.err != b.err || a.w1.size() != b.w1.size() || a.w2.size() != b.w2.size() || a.V.size() != b.V.size()) return false;
+  for (size_t i = 0; i < a.w1.size(); ++i) if (!sameQ(a.w1[i], b.w1[i])) return false;
+  for (size_t i = 0; i < a.w2.size(); ++i) if (!sameQ(a.w2[i], b.w2[i])) return false;
+  for (size_t i = 0; i < a.V.size(); ++i) {
+    if (a.V[i].size() != b.V[i].size()) return false;
+    for (size_t j = 0; j < a.V[i].size(); ++j) if (!sameQ(a.V[i][j], b.V[i][j])) return false;
+  }
+  return true;
+}
+
+// runs the routines twice on the same matrix with differently pre-filled output arguments; `dep` is set when the two
+// answers differ (the routines are deterministic functions of the matrix: same input, same LAPACK build, same thread)
+template <class T, int n>
+SymOut callSym(bool lap, const Dune::FieldMatrix<T, n, n>& A, std::string* dep = nullptr) {
+  SymOut o = callSymOnce<T, n>(lap, A, 0);
+  if (dep) {
+    SymOut o1 = callSymOnce<T, n>(lap, A, 1);
+    if (!sameOut(o, o1)) *dep = "FAIL result depends on the previous content of the output arguments";
+  }
   return o;
 }
 
@@ -420,7 +470,8 @@ Result execSymTN(const std::vector<std::string>& w) {
   std::string tag = std::string(1, TInfo<T>::code) + (usesLapack ? "_lapack" : "_cf" + std::to_string(n));
   stat("sym_" + tag);
   stat(std::string("sym_scale_") + (k == 0 ? "0" : (k < -100 ? "tiny" : k < 0 ? "small" : k > 100 ? "huge" : "large")));
-  SymOut o = callSym<T, n>(lap, A);
+  std::string dep;
+  SymOut o = callSym<T, n>(lap, A, &dep);
   res.impl = o.err.empty() ? "shape n=" + std::to_string(n) + " vals=" + std::to_string(o.w1.size()) + " vecs=" +
                                  std::to_string(o.V.size()) + "x" + std::to_string(o.V.empty() ? 0 : o.V[0].size())
                            : o.err;
@@ -458,6 +509,7 @@ Result execSymTN(const std::vector<std::string>& w) {
     stat(ident ? "cf2_identity_branch" : "cf2_general_branch");
   }
   std::string f = checkSym(n, Aq, o, eps, sqrtClass, tag);
+  if (f.empty()) f = dep;
   if (f.empty() && k != 0) {
     // scale equivariance: same base matrix at magnitude 1
     SymOut o0 = callSym<T, n>(lap, A0);
@@ -522,7 +574,8 @@ Result execEv2x(const std::vector<std::string>& w) {
   };
   Dune::FieldMatrix<T, 2, 2> A = {{mk(a), mk(b)}, {mk(b), mk(d)}};
   stat(std::string("ev2x_") + TInfo<T>::code);
-  SymOut o = callSym<T, 2>(false, A);
+  std::string dep;
+  SymOut o = callSym<T, 2>(false, A, &dep);
   if (!o.err.empty()) { res.impl = o.err; res.oracle = "FAIL exception " + o.err + " for a symmetric matrix"; return res; }
   std::vector<T> w1 = {(T)o.w1[0], (T)o.w1[1]}, w2 = {(T)o.w2[0], (T)o.w2[1]};
   std::string vs = "[";
@@ -543,6 +596,7 @@ Result execEv2x(const std::vector<std::string>& w) {
   }
   std::vector<Q> Aq = {(Q)A[0][0], (Q)A[0][1], (Q)A[1][0], (Q)A[1][1]};
   std::string f = checkSym(2, Aq, o, effEps<T>(false), false, std::string(1, TInfo<T>::code) + "_ev2x");
+  if (f.empty()) f = dep;
   if (!f.empty()) res.oracle = f;
   return res;
 }
@@ -562,7 +616,8 @@ Result execEv3x(const std::vector<std::string>& w) {
   };
   Dune::FieldMatrix<T, 3, 3> A = {{mk(v[0]), mk(v[1]), mk(v[2])}, {mk(v[1]), mk(v[3]), mk(v[4])}, {mk(v[2]), mk(v[4]), mk(v[5])}};
   stat(std::string("ev3x_") + TInfo<T>::code);
-  SymOut o = callSym<T, 3>(false, A);
+  std::string dep;
+  SymOut o = callSym<T, 3>(false, A, &dep);
   if (!o.err.empty()) { res.impl = o.err; res.oracle = "FAIL exception " + o.err + " for a symmetric matrix"; return res; }
   bool perm = true;
   for (int i = 0; i < 3; ++i) {
@@ -590,6 +645,7 @@ Result execEv3x(const std::vector<std::string>& w) {
   for (int i = 0; i < 3; ++i)
     for (int j = 0; j < 3; ++j) Aq[i * 3 + j] = (Q)A[i][j];
   std::string f = checkSym(3, Aq, o, effEps<T>(false), true, std::string(1, TInfo<T>::code) + "_ev3x");
+  if (f.empty()) f = dep;
   if (!f.empty()) res.oracle = f;
   return res;
 }
@@ -613,8 +669,8 @@ Result execHandTN(const std::vector<std::string>& w) {
   bool sym = true;
   for (int i = 0; i < n; ++i)
     for (int j = 0; j < n; ++j) if (Ai[i][j] != Ai[j][i]) sym = false;
-  Dune::FieldVector<T, n> vals(0);
-  Dune::FieldMatrix<T, n, n> V(0);
+  Dune::FieldVector<T, n> vals(7777);   // the caller's outputs hold junk on entry
+  Dune::FieldMatrix<T, n, n> V(8888);
   bool wantVec = which != "vals";
   g_fake = true;
   g_rec = FakeRec();
@@ -764,6 +820,7 @@ Result execHandNsfTN(const std::vector<std::string>& w) {
   for (int i = 0; i < n; ++i)
     for (int j = 0; j < n; ++j) { Ai[i][j] = std::stol(w[3 + i * n + j]); A[i][j] = (T)Ai[i][j]; }
   Dune::FieldVector<Cx, n> vals;
+  for (int i = 0; i < n; ++i) { vals[i].real = 7777; vals[i].imag = 8888; }
   g_fake = true;
   g_rec = FakeRec();
   try {
@@ -939,6 +996,7 @@ Result execNsfTN(const std::vector<std::string>& w) {
     }
   stat("nsf");
   Dune::FieldVector<Cx, n> vals;
+  for (int i = 0; i < n; ++i) vals[i].real = vals[i].imag = std::numeric_limits<double>::quiet_NaN();
   try {
     Dune::FMatrixHelp::eigenValuesNonSym(A, vals);
   } catch (Dune::Exception&) { res.impl = "ERR:InvalidState"; res.oracle = "FAIL eigenvalue computation reported failure"; return res; }
@@ -963,6 +1021,207 @@ Result execNsf(const std::vector<std::string>& w) {
   throw std::runtime_error("nsf: size out of range");
 }
 
+// ---- histories: several calls of DynamicMatrixHelp::eigenValuesNonSym on the same two output containers ----------
+// The containers belong to the caller: a loop over blocks of varying size reuses them, or they arrive pre-sized.  After
+// every call they must hold exactly the decomposition of the matrix of *that* call: n values, n vectors of n entries.
+//   nsq     T C : seg;seg;...   real LAPACK;    seg = pre a [l0,l1,..] | ev n vec k h..
+//   handnsq T C : seg;seg;...   recording fake; seg = pre a [l0,l1,..] | fk n vec i..
+// C in {c,z}: eigenvalue container DynamicVector<std::complex<T>> resp. DynamicVector<std::complex<double>>;
+// pre = the caller sets eigenValues to a entries and eigenVectors to vectors of the given lengths (filled with junk)
+template <class T, class C>
+struct NsBox {
+  Dune::DynamicVector<C> vals;
+  std::vector<Dune::DynamicVector<T>> V;
+};
+static long junkRe(int i) { return 5000 + i; }
+static long junkIm(int i) { return 6000 + i; }
+static long junkVec(int p, int q) { return 10000 + 100 * p + q; }
+
+template <class T, class C>
+void prefill(NsBox<T, C>& b, const std::vector<std::string>& w) {
+  if (w.size() != 3) throw std::runtime_error("pre: wrong arity");
+  long a = std::stol(w[1]);
+  std::vector<long> lens = parseList(w[2]);
+  if (w[2].size() < 2 || w[2].front() != '[' || w[2].back() != ']') throw std::runtime_error("pre: bad list");
+  if (a < 0 || a > 12 || lens.size() > 12) throw std::runtime_error("pre: out of range");
+  b.vals.resize(0);
+  b.vals.resize(a);
+  for (long i = 0; i < a; ++i) b.vals[i] = C((typename C::value_type)junkRe(i), (typename C::value_type)junkIm(i));
+  b.V.clear();
+  for (size_t p = 0; p < lens.size(); ++p) {
+    if (lens[p] < 0 || lens[p] > 12) throw std::runtime_error("pre: out of range");
+    Dune::DynamicVector<T> v(lens[p]);
+    for (long q = 0; q < lens[p]; ++q) v[q] = (T)junkVec(p, q);
+    b.V.push_back(v);
+  }
+  stat("hist_pre");
+}
+template <class T, class C> std::string lensStr(const NsBox<T, C>& b) {
+  std::vector<long> l;
+  for (auto& v : b.V) l.push_back((long)v.size());
+  return listStr(l);
+}
+template <class T, class C> std::string valsStr(const NsBox<T, C>& b) {
+  std::vector<std::string> vs;
+  for (size_t i = 0; i < b.vals.size(); ++i) vs.push_back(std::to_string((long)b.vals[i].real()) + ":" + std::to_string((long)b.vals[i].imag()));
+  return listStr(vs);
+}
+template <class T, class C> std::string vecsStr(const NsBox<T, C>& b) {
+  std::vector<std::string> rows;
+  for (auto& v : b.V) {
+    std::vector<long> r;
+    for (size_t j = 0; j < v.size(); ++j) { long x = (long)v[j]; r.push_back(x < 0 ? -x : x); }
+    rows.push_back(listStr(r));
+  }
+  return listStr(rows);
+}
+// size part of the property for one call: exactly n eigenvalues and, if requested, n vectors with n entries
+template <class T, class C> std::string shapeFail(const NsBox<T, C>& b, int n, bool vec) {
+  if ((int)b.vals.size() != n)
+    return "FAIL " + std::to_string(b.vals.size()) + " eigenvalues returned for a " + std::to_string(n) + "x" + std::to_string(n) + " matrix";
+  if (!vec) return "";
+  if ((int)b.V.size() != n)
+    return "FAIL " + std::to_string(b.V.size()) + " eigenvectors returned for a " + std::to_string(n) + "x" + std::to_string(n) + " matrix";
+  for (int i = 0; i < n; ++i)
+    if ((int)b.V[i].size() != n)
+      return "FAIL eigenvector " + std::to_string(i) + " has " + std::to_string(b.V[i].size()) + " entries but the matrix is " +
+             std::to_string(n) + "x" + std::to_string(n);
+  return "";
+}
+
+// one fake call; returns the observation, sets fail
+template <class T, class C>
+std::string histFakeCall(NsBox<T, C>& b, const std::vector<std::string>& w, std::string& fail) {
+  if (w.size() < 3) throw std::runtime_error("fk: wrong arity");
+  int n = std::stoi(w[1]), vec = std::stoi(w[2]);
+  if (n < 1 || n > 8 || (vec != 0 && vec != 1) || (int)w.size() != 3 + n * n) throw std::runtime_error("fk: wrong arity");
+  Dune::DynamicMatrix<T> A(n, n);
+  std::vector<std::vector<long>> Ai(n, std::vector<long>(n));
+  for (int i = 0; i < n; ++i)
+    for (int j = 0; j < n; ++j) { Ai[i][j] = std::stol(w[3 + i * n + j]); A[i][j] = (T)Ai[i][j]; }
+  std::vector<Dune::DynamicVector<T>> before = b.V;
+  g_fake = true;
+  g_rec = FakeRec();
+  try {
+    Dune::DynamicMatrixHelp::eigenValuesNonSym(A, b.vals, vec ? &b.V : nullptr);
+  } catch (Dune::Exception&) { g_fake = false; fail = "FAIL exception in hand-over"; return "ERR:Other"; }
+  g_fake = false;
+  stat(vec ? "hist_fk_vec" : "hist_fk_vals");
+  std::string sees = seesWhat(n, Ai);
+  std::string rightOf = "-";
+  fail = shapeFail(b, n, vec);
+  if (vec && fail.empty()) {
+    bool fromVr = true, fromVl = true;
+    for (int i = 0; i < n; ++i)
+      for (int j = 0; j < n; ++j) {
+        long x = (long)b.V[i][j];
+        if (x != 100 * (i + 1) + (j + 1)) fromVr = false;
+        if (x != -(100 * (i + 1) + (j + 1))) fromVl = false;
+      }
+    if (sees == "A~") rightOf = (fromVr || fromVl) ? "A" : "other";
+    else if ((sees == "A" && fromVr) || (sees == "AT" && fromVl)) rightOf = "A";
+    else if ((sees == "AT" && fromVr) || (sees == "A" && fromVl)) rightOf = "AT";
+    else rightOf = "other";
+  } else if (vec) rightOf = "other";
+  std::string obs = std::string("spectrum-of=") + (sees == "other" ? "other" : "A") + " right-eigenvectors-of=" + rightOf +
+                    " vals=" + valsStr(b) + " vecs=" + vecsStr(b);
+  if (!fail.empty()) return obs;
+  if (sees == "other") fail = "FAIL LAPACK sees neither A nor its transpose";
+  else if (g_rec.lwork < (vec ? 4 * n : 3 * n)) fail = "FAIL workspace too small";
+  else if (vec && rightOf != "A") fail = "FAIL returned vectors are right eigenvectors of " + rightOf + ", not of A";
+  else if (!vec && before.size() != b.V.size()) fail = "FAIL eigenvector list changed although no eigenvectors were requested";
+  else
+    for (int i = 0; i < n && fail.empty(); ++i)
+      if ((long)b.vals[i].real() != i + 1 || (long)b.vals[i].imag() != 0) fail = "FAIL eigenvalues not copied back in order";
+  return obs;
+}
+
+// one call on real LAPACK
+template <class T, class C>
+std::string histRealCall(NsBox<T, C>& b, const std::vector<std::string>& w, std::string& fail) {
+  if (w.size() < 4) throw std::runtime_error("ev: wrong arity");
+  int n = std::stoi(w[1]), vec = std::stoi(w[2]), k = std::stoi(w[3]);
+  if (n < 1 || n > 8 || (vec != 0 && vec != 1) || (int)w.size() != 4 + n * n) throw std::runtime_error("ev: wrong arity");
+  Dune::DynamicMatrix<T> A(n, n);
+  std::vector<Q> Aq(n * n);
+  for (int i = 0; i < n; ++i)
+    for (int j = 0; j < n; ++j) {
+      long double v = parseHexLd(w[4 + i * n + j]);
+      T t = (T)v;
+      if ((long double)t != v) throw std::runtime_error("entry not representable in the scalar type");
+      t = std::ldexp(t, k);
+      A[i][j] = t;
+      Aq[i * n + j] = (Q)t;
+    }
+  stat(vec ? "hist_ev_vec" : "hist_ev_vals");
+  try {
+    Dune::DynamicMatrixHelp::eigenValuesNonSym(A, b.vals, vec ? &b.V : nullptr);
+  } catch (Dune::Exception&) { fail = "FAIL eigenvalue computation reported failure"; return "ERR:InvalidState"; }
+  std::string obs = "n=" + std::to_string(n) + " vals=" + std::to_string(b.vals.size()) + " vecs=" + lensStr(b);
+  fail = shapeFail(b, n, vec);
+  if (!fail.empty()) return obs;
+  std::vector<CQ> lam;
+  for (int i = 0; i < n; ++i) lam.push_back({(Q)b.vals[i].real(), (Q)b.vals[i].imag()});
+  // the values pass through C: the accuracy is that of the coarser of double (LAPACK) and C's real type
+  Q eps = effEps<T>(true);
+  Q epsC = (Q)std::numeric_limits<typename C::value_type>::epsilon();
+  if (epsC > eps) eps = epsC;
+  std::string tag = std::string(1, TInfo<T>::code) + "_nsq";
+  fail = checkSpectrum(n, Aq, lam, eps, tag);
+  if (fail.empty() && vec) {
+    std::vector<std::vector<Q>> Vq;
+    for (int i = 0; i < n; ++i) {
+      std::vector<Q> r;
+      for (int j = 0; j < n; ++j) r.push_back((Q)b.V[i][j]);
+      Vq.push_back(r);
+    }
+    fail = checkRightVectors(n, Aq, lam, Vq, eps, tag);
+  }
+  return obs;
+}
+
+template <class T, class C>
+Result execHistTC(const std::string& line, bool fake) {
+  Result res;
+  size_t pos = line.find(" : ");
+  if (pos == std::string::npos) throw std::runtime_error("history without ' : '");
+  std::vector<std::string> segs = split(line.substr(pos + 3), ';');
+  if (segs.empty() || segs.size() > 40) throw std::runtime_error("history: bad number of segments");
+  NsBox<T, C> b;
+  int calls = 0, shapes = 0;   // distinct matrix orders seen with vectors requested
+  std::set<int> orders;
+  for (size_t si = 0; si < segs.size(); ++si) {
+    auto w = words(segs[si]);
+    if (w.empty()) throw std::runtime_error("history: empty segment");
+    std::string obs, fail;
+    if (w[0] == "pre") {
+      prefill(b, w);
+      obs = fake ? "pre vals=" + valsStr(b) + " vecs=" + vecsStr(b) : "pre vals=" + std::to_string(b.vals.size()) + " vecs=" + lensStr(b);
+    } else if (w[0] == "fk" && fake) { obs = histFakeCall(b, w, fail); ++calls; orders.insert(std::stoi(w[1]));
+    } else if (w[0] == "ev" && !fake) { obs = histRealCall(b, w, fail); ++calls; orders.insert(std::stoi(w[1]));
+    } else throw std::runtime_error("history: unknown segment " + w[0]);
+    res.impl += (si ? " | " : "") + obs;
+    if (!fail.empty()) {
+      res.oracle = "FAIL call " + std::to_string(si) + " (" + w[0] + " n=" + (w.size() > 1 ? w[1] : "") + "): " + fail.substr(5);
+      return res;
+    }
+  }
+  (void)shapes;
+  stat(fake ? "handnsq" : "nsq");
+  stat("hist_orders_" + std::to_string(std::min<size_t>(orders.size(), 4)));
+  if (calls == 0) res.oracle = "ok trivial";
+  return res;
+}
+
+template <class T>
+Result execHist(const std::string& line, const std::vector<std::string>& w) {
+  bool fake = w[0] == "handnsq";
+  if (w.size() < 4 || w[3] != ":") throw std::runtime_error("history: bad header");
+  if (w[2] == "c") return execHistTC<T, std::complex<T>>(line, fake);
+  if (w[2] == "z") return execHistTC<T, std::complex<double>>(line, fake);
+  throw std::runtime_error("history: bad eigenvalue type " + w[2]);
+}
+
 // ------------------------------------------------------------------------------------------------
 // executor
 // ------------------------------------------------------------------------------------------------
@@ -984,6 +1243,12 @@ static Result exec(const std::string& line) {
   auto w = words(line);
   if (w.size() < 3) throw std::runtime_error("short op line");
   const std::string& t = w[1];
+  if (w[0] == "nsq" || w[0] == "handnsq") {
+    if (t == "f") return execHist<float>(line, w);
+    if (t == "d") return execHist<double>(line, w);
+    if (t == "l") return execHist<long double>(line, w);
+    throw std::runtime_error("unknown scalar type " + t);
+  }
   if (t == "f") return execT<float>(w);
   if (t == "d") return execT<double>(w);
   if (t == "l") return execT<long double>(w);
@@ -1257,9 +1522,7 @@ std::string genHandNs(Rng& rng, bool fm) {
 }
 
 // non-symmetric test matrices: Q * (upper triangular / 2x2 rotation blocks) * Q^T, integer triangular matrices, rotations
-template <class T>
-std::string genNs(Rng& rng, bool fm) {
-  int n = (int)rng.range(1, 6);
+static std::vector<LD> nsMatrix(Rng& rng, int n) {
   std::vector<LD> A(n * n, 0);
   int kind = (int)rng.below(5);
   if (kind == 0 && n >= 2) {
@@ -1301,17 +1564,90 @@ std::string genNs(Rng& rng, bool fm) {
       for (int j = 0; j < n; ++j)
         for (int k = 0; k < n; ++k) A[i * n + j] += QT[i * n + k] * Qm[j * n + k];
   }
-  int k = 0;
+  return A;
+}
+template <class T>
+int nsScale(Rng& rng) {
   switch (rng.below(4)) {
-    case 0: k = 0; break;
-    case 1: k = TInfo<T>::kminNS + (int)rng.below(8); break;
-    case 2: k = TInfo<T>::kmaxNS - (int)rng.below(8); break;
-    default: k = (int)rng.range(TInfo<T>::kminNS, TInfo<T>::kmaxNS); break;
+    case 0: return 0;
+    case 1: return TInfo<T>::kminNS + (int)rng.below(8);
+    case 2: return TInfo<T>::kmaxNS - (int)rng.below(8);
+    default: return (int)rng.range(TInfo<T>::kminNS, TInfo<T>::kmaxNS);
   }
+}
+template <class T>
+std::string genNs(Rng& rng, bool fm) {
+  int n = (int)rng.range(1, 6);
+  std::vector<LD> A = nsMatrix(rng, n);
+  int k = nsScale<T>(rng);
   std::string line = std::string(fm ? "nsf " : "nsd ") + TInfo<T>::code + " " + std::to_string(n);
   if (!fm) line += rng.coin(3, 4) ? " 1" : " 0";
   line += " " + std::to_string(k);
   for (auto x : A) line += " " + hexOf<T>((T)x);
+  return line;
+}
+
+// histories on the same pair of output containers: orders that shrink, grow, repeat; calls with and without vectors;
+// containers the caller pre-sized (too long, too short, vectors of other lengths, empty vectors)
+static std::string genPreSeg(Rng& rng) {
+  long a = rng.coin(1, 3) ? 0 : rng.range(0, 8);
+  int cnt = rng.coin(1, 4) ? 0 : (int)rng.range(1, 8);
+  std::vector<long> lens;
+  long common = rng.range(0, 8);
+  int mode = (int)rng.below(3);  // 0: all equal, 1: ragged, 2: mostly empty
+  for (int i = 0; i < cnt; ++i) lens.push_back(mode == 0 ? common : mode == 1 ? rng.range(0, 8) : (rng.coin(1, 4) ? common : 0));
+  return "pre " + std::to_string(a) + " " + listStr(lens);
+}
+static std::vector<int> genOrders(Rng& rng, int calls) {
+  std::vector<int> ns;
+  int n = (int)rng.range(1, 6);
+  int shape = (int)rng.below(5);  // 0 shrinking, 1 growing, 2 random, 3 alternate two orders, 4 constant
+  int other = (int)rng.range(1, 6);
+  for (int c = 0; c < calls; ++c) {
+    switch (shape) {
+      case 0: if (c) n = std::max(1, n - (int)rng.range(0, 2)); break;
+      case 1: if (c) n = std::min(6, n + (int)rng.range(0, 2)); break;
+      case 2: n = (int)rng.range(1, 6); break;
+      case 3: n = (c % 2) ? other : ns.empty() ? n : ns[0]; break;
+      default: break;
+    }
+    if (shape == 0 && c == 0) n = (int)rng.range(3, 6);
+    if (shape == 1 && c == 0) n = (int)rng.range(1, 3);
+    ns.push_back(n);
+  }
+  return ns;
+}
+template <class T>
+std::string genHist(Rng& rng, bool fake) {
+  std::string line = std::string(fake ? "handnsq " : "nsq ") + TInfo<T>::code + (rng.coin(1, 4) ? " z" : " c") + " : ";
+  int calls = (int)rng.range(2, 5);
+  std::vector<int> ns = genOrders(rng, calls);
+  bool first = true;
+  auto add = [&](const std::string& seg) { line += (first ? "" : ";") + seg; first = false; };
+  if (rng.coin(1, 3)) add(genPreSeg(rng));
+  for (int c = 0; c < calls; ++c) {
+    int n = ns[c];
+    bool vec = rng.coin(4, 5);
+    if (c && rng.coin(1, 8)) add(genPreSeg(rng));
+    std::string seg;
+    if (fake) {
+      seg = "fk " + std::to_string(n) + (vec ? " 1" : " 0");
+      bool symm = rng.coin(1, 5);
+      std::vector<long> A(n * n);
+      for (int i = 0; i < n; ++i)
+        for (int j = 0; j < n; ++j) A[i * n + j] = rng.range(-20, 20);
+      if (symm)
+        for (int i = 0; i < n; ++i)
+          for (int j = 0; j < i; ++j) A[i * n + j] = A[j * n + i];
+      for (auto x : A) seg += " " + std::to_string(x);
+    } else {
+      std::vector<LD> A = nsMatrix(rng, n);
+      int k = rng.coin() ? 0 : nsScale<T>(rng);
+      seg = "ev " + std::to_string(n) + (vec ? " 1 " : " 0 ") + std::to_string(k);
+      for (auto x : A) seg += " " + hexOf<T>((T)x);
+    }
+    add(seg);
+  }
   return line;
 }
 
@@ -1377,9 +1713,11 @@ std::string genT(Rng& rng, const Args& a) {
   if (c < 76) return genEv2x<T>(rng);
   if (c < 82) return genEv3x<T>(rng);
   if (c < 86) return genHand<T>(rng);
-  if (c < 88) return genHandNs<T>(rng, false);
+  if (c < 87) return genHandNs<T>(rng, false);
+  if (c < 88) return genHist<T>(rng, true);
   if (c < 89) return genHandNs<T>(rng, true);
-  if (c < 96) return genNs<T>(rng, false);
+  if (c < 93) return genNs<T>(rng, false);
+  if (c < 96) return genHist<T>(rng, false);
   return genNs<T>(rng, true);
 }
 
